@@ -47,10 +47,11 @@ enum {
 	W_EP_CLOSE,     // dialer/listener close vs pending ops
 	W_ISSUE,        // ops ISSUED concurrently with close (not yet pending)
 	W_NEGO,         // raw peer connected but silent (negotiating pipe)
+	W_CTXOP,        // short ctx calls (transient references) racing close
 	W_N
 };
 static const char *WN[] = { "sockclose", "sockclose2", "ctxclose", "pipeclose",
-	"epclose", "issue", "nego" };
+	"epclose", "issue", "nego", "ctxop" };
 
 typedef struct carg {
 	int proto, what;
@@ -106,6 +107,20 @@ t_ctxrecv(void *a)
 	if (rv_ctx == 0)
 		nng_msg_free(m);
 	done_ctx = ++seqno;
+	return NULL;
+}
+static int rv_ctxop;
+static void *
+t_ctxop(void *a)
+{
+	(void) a;
+	// short context calls: each holds a transient reference on the context
+	nng_duration d;
+	for (int i = 0; i < 2; i++) {
+		rv_ctxop = nng_ctx_get_ms(CTX, NNG_OPT_RECVTIMEO, &d);
+		if (rv_ctxop != 0)
+			break;
+	}
 	return NULL;
 }
 static void *
@@ -181,7 +196,8 @@ run_close(void *arg)
 	if (with_peer && !have_pipe)
 		vs_fail("harness:setup", "%s: no pipe after dial", P[p].name);
 
-	pthread_t tr, ts, tc, tk1, tk2;
+	pthread_t tr, ts, tc, tk1, tk2, to;
+	int       use_ctxop = 0;
 	int       use_recv = P[p].can_recv, use_send = 0, use_ctx = 0;
 	// a blocking send is only interesting where it can block
 	if (P[p].can_send &&
@@ -194,13 +210,27 @@ run_close(void *arg)
 		vs_outcome("n/a");
 		goto out;
 	}
-	if (c->what == W_ISSUE) {
+	if (c->what == W_CTXOP) {
+		if (!P[p].ctx) {
+			vs_outcome("n/a");
+			goto out;
+		}
+		use_recv = use_send = use_ctx = 0;
+		use_ctxop           = 1;
+		vs_window(1);
+		pthread_create(&to, NULL, t_ctxop, NULL);
+		pthread_create(&tk1, NULL, t_close, &rv_close1);
+	} else if (c->what == W_ISSUE) {
 		// operations are issued inside the window, racing with close
 		vs_window(1);
 		if (use_recv)
 			pthread_create(&tr, NULL, t_recv, NULL);
 		if (use_send)
 			pthread_create(&ts, NULL, t_send, NULL);
+		if (P[p].ctx) {
+			use_ctxop = 1;
+			pthread_create(&to, NULL, t_ctxop, NULL);
+		}
 		pthread_create(&tk1, NULL, t_close, &rv_close1);
 	} else {
 		if (use_recv)
@@ -269,6 +299,12 @@ run_close(void *arg)
 		pthread_join(ts, NULL);
 	if (use_ctx)
 		pthread_join(tc, NULL);
+	if (use_ctxop) {
+		pthread_join(to, NULL);
+		if (rv_ctxop != 0 && rv_ctxop != NNG_ECLOSED && rv_ctxop != NNG_ENOENT)
+			vs_fail("C10:pending-result", "%s: ctx option call -> %d",
+			    P[p].name, rv_ctxop);
+	}
 	// ---- oracle ----
 	if (rv_close1 != 0 && !(c->what == W_SOCK_CLOSE2 && rv_close1 == NNG_ECLOSED))
 		vs_fail("C10:close-result", "%s/%s: socket close returned %d",
@@ -334,13 +370,15 @@ main(int argc, char **argv)
 	int         na = 0;
 	for (int w = 0; w < W_N; w++)
 		for (int p = 0; p < NP; p++) {
-			if (w == W_CTX_CLOSE && !P[p].ctx)
+			if ((w == W_CTX_CLOSE || w == W_CTXOP) && !P[p].ctx)
 				continue;
 			if (!T) {
 				// quick: every protocol for plain close; the other
 				// closers on a representative subset
 				if (w != W_SOCK_CLOSE && !(p == 0 || p == 3 || p == 5 ||
 				        p == 7 || p == 10 || p == 12))
+					continue;
+				if (w == W_CTXOP && p != 7)
 					continue;
 			}
 			if (vx_time_left() < 15)
@@ -358,12 +396,12 @@ main(int argc, char **argv)
 			c.arg      = a;
 			for (int i = 0; i < VB_NB; i++)
 				c.budget[i] = 0;
-			c.budget[VB_PREEMPT] = T ? 2 : 1;
-			c.budget[VB_SWITCH]  = T ? 2 : 1;
+			c.budget[VB_PREEMPT] = (T || w == W_CTXOP) ? 2 : 1;
+			c.budget[VB_SWITCH]  = (T || w == W_CTXOP) ? 2 : 1;
 			c.budget[VB_WAKE1]   = 1;
 			c.budget[VB_ENV]     = -1;
-			c.total              = T ? 2 : 1;
-			c.deadline_s         = T ? 40 : 6;
+			c.total              = (T || w == W_CTXOP) ? 2 : 1;
+			c.deadline_s         = T ? 40 : (w == W_CTXOP ? 30 : 6);
 			vx_explore(&c, NULL);
 		}
 	vx_note("scenarios",
